@@ -24,6 +24,8 @@ ASSUMPTIONS = [
     "the idstring of a LicenseRef is not empty (SPDX Annex D: 1*(...)): 'LicenseRef-' and 'licenseref-+' are rejected since fix 8e6ceae; "
     "law.l.strictref checks it with such a token in every operand position",
     "'GPL-2.0++' is license-id '+' with the deprecated table id 'GPL-2.0+': well-formed in SPDX proper, accepted",
+    "Annex D forms the code rejects and the property text does not name - 'DocumentRef-x:LicenseRef-y', 'AdditionRef-x' after WITH, the "
+    "words NONE / NOASSERTION - are taken as not well-formed (spec, model and law.l.simple agree with the code on this)",
     "the argument is a str (an int raises AttributeError, bytes TypeError: outside the domain); every str, lone surrogates included, is inside",
     "first rejected nesting depth per shape (law.l.evaldepth) is recorded for CPython 3.12 only; on another interpreter the law checks "
     "agreement of the function with eval() on its skeleton, monotonicity and the band 101..201",
@@ -33,6 +35,9 @@ TRUSTED_EXTRA = [
     "token sequences up to the length bound of this run (streams sweep5/sweep7) and by law.l.evalprobe for the depth limits",
     "str.split()/str.lower()/str.replace()/re.match of CPython: modelled by hand; tables probed over all code points (law.l.lowerprobe)",
     "coq/Gen/SpdxTable.v is produced by harness/tables_spdx.py from the working tree on every run",
+    "the l.spec stream compares two automaton readings of the property (Python gen_lic.spec, Coq LicSpec/LicAuto); the inductive grammar "
+    "LicGrammar.expr is tied to the automaton by proof only (C19_spdx_automaton_is_the_grammar) and is never executed; law.l.simple is a third, "
+    "regex-based reading of single tokens (lic_impl.simple_reading) that ties LicIds.strict_simple / ref_with_plus to the code",
 ]
 
 _tables = None
@@ -332,6 +337,29 @@ def streams(rng, tier):
         s = "".join(parts)
         out.append(Case("arbitrary-codepoints", "l.canon", [s]))
         if rng.random() < 0.3: out.append(Case("spec-vs-spec", "l.spec", [s]))
+    # single tokens against an Annex D reading written independently of gen_lic.spec (lic_impl.simple_reading = LicIds.strict_simple /
+    # ref_with_plus): alone and after WITH
+    SIMPLE_FIXED = ["MIT", "mit+", "MIT++", "GPL-2.0+", "gpl-2.0++", "GPL-2.0+++", "LicenseRef-a", "licenseref-A+", "LicenseRef-a++", "LicenseRef-", "LicenseRef-+",
+                    "LicenseRef-.", "LicenseRef--+", "LicenseRef-a+b", "LicenseRef-a_b", "LicenseRef-\u00e9", "licen\u017feref-a", "LICENSEREF-K", "LicenseRef-\u212a",
+                    "DocumentRef-a:LicenseRef-b", "DocumentRef-a:LicenseRef-b+", "documentref-a", "AdditionRef-x", "LicenseRef", "licenseref", "LicenseRef_a",
+                    "llgpl", "LLGPL+", "389-exception", "or", "WITH", "and+", "+", "++", "\u212aazlib", "Kazlib", "kazlib+", "LicenseRef-a:b", "NONE", "NOASSERTION"]
+    for t in SIMPLE_FIXED: out.append(Case("law-simple", "law.l.simple", [t], kind="law"))
+    lic, exc = tables()
+    for _ in range(1200 if q else 25000):
+        k = rng.random()
+        if k < 0.35: t = rcase(rng, rng.choice(lic))
+        elif k < 0.45: t = rcase(rng, rng.choice(exc))
+        elif k < 0.6: t = rcase(rng, rng.choice(SHORT))
+        else:
+            t = rcase(rng, "LicenseRef-") + "".join(rng.choice("aZ09.-aBc") for _ in range(rng.choice([0, 1, 1, 2, 4, 9])))
+        t += rng.choice(["", "", "", "+", "+", "++"])
+        if rng.random() < 0.3:
+            i = rng.randrange(len(t) + 1)
+            c = rng.choice(["+", "-", ".", "_", ":", "a", "K", "\u212a", "\u0130", "\u017f", "\u00e9", "\x00", "DocumentRef-x:", "AdditionRef-"]) if rng.random() < 0.7 else any_codepoint(rng)
+            t = t[:i] + c + t[i:] if rng.random() < 0.8 else t[:i] + t[i + 1:]
+        out.append(Case("law-simple", "law.l.simple", [t], kind="law"))
+    for s in ["DocumentRef-a:LicenseRef-b", "MIT WITH AdditionRef-x", "DocumentRef-spdx-tool-1.2:LicenseRef-MIT-Style-2 OR MIT", "MIT OR AdditionRef-x", "NONE", "NOASSERTION"]:
+        out.append(Case("fixed2", "l.canon", [s])); out.append(Case("spec-vs-spec", "l.spec", [s]))
     # the idstring of a LicenseRef is not empty (fix 8e6ceae): an empty-idstring ref in every operand position of a valid expression
     for s in ["LicenseRef-", "licenseref-+", "MIT OR LICENSEREF-", "(LicenseRef-) AND gd", "LicenseRef- WITH llgpl", "LicenseRef-a", "LicenseRef-.", "MIT"]:
         out.append(Case("law-strictref", "law.l.strictref", [s], kind="law")); out.append(Case("strictref", "l.canon", [s]))
